@@ -303,6 +303,16 @@ func runC20Registry(r *Run, which string) {
 	switch which {
 	case "gometrics":
 		gm = gometrics.NewRegistry()
+		if t.Chance(35, "backend-names-preexist") {
+			// a shared backend registry in which the application (or an earlier wrapper with the same prefix)
+			// already registered these names: the samples must land in THOSE metrics
+			for _, base := range []string{"rtt", "inflight", "dropped", "lead"} {
+				gometrics.GetOrRegisterHistogram(effPrefix+base+"0", gm, gometrics.NewUniformSample(100))
+				gometrics.GetOrRegisterTimer(effPrefix+base+"1", gm)
+				gometrics.GetOrRegisterCounter(effPrefix+base+"2", gm)
+			}
+			r.Probe("backend_names_preexist")
+		}
 		x, err := gmreg.NewGoMetricsMetricRegistry(gm, "", prefix, freq)
 		if err != nil {
 			r.Fail("harness", "build", "%v", err)
@@ -326,6 +336,7 @@ func runC20Registry(r *Run, which string) {
 	}
 	s := r.NewSched()
 	s.MaxVirt = 2 * time.Hour
+	s.NoDeadlockFail = true // reported below as registry-call-never-returns
 	var polls []pollRec
 	var pmu sync.Mutex
 	mkSupplier := func(id string, val float64) core.MetricSupplier {
